@@ -47,10 +47,15 @@ for vid, rs in sorted(by.items()):
             meta["analysis_errors"] = errs
         elif "analysis_errors" in meta:
             del meta["analysis_errors"]
+    if meta.get("kind") == "twin":
+        meta["fired_by"] = det
+        meta["checked_against"] = sorted(p for p, o, d in rs)
+        meta["analysis_errors"] = {p: (o + " " + d) for p, o, d in rs if o == "analysis-error"}
     json.dump(meta, open(mp, "w"), indent=1)
     mark = "DETECTED" if own in det else "MISSED  "
     if meta.get("kind") == "twin":
-        mark = "TWIN-FIRED" if det else "TWIN-SILENT"
+        errs = [p for p, o, d in rs if o == "analysis-error"]
+        mark = "TWIN-FIRED" if det else ("TWIN-ERROR" if errs else "TWIN-SILENT")
     print(f"{mark} {vid:12s} own={own} by={det} " + "; ".join(f"{p}:{o}" for p, o, d in rs if o not in ("fired", "silent")))
     for p, o, d in rs:
         if o == "fired" and p == own:
